@@ -263,7 +263,7 @@ static int runScript(const char* scriptPath, const char* outPath, int tid) {
         if (op == "dumpmode") { dumpMode = t[1] == "full" ? 2 : t[1] == "shape" ? 1 : 0; continue; }
         else if (op == "new") { res = classify([&]() { cur.reset(new Open()); }); }
         else if (op == "load") { cur.reset(); res = classify([&]() { cur.reset(new Open(t[1])); }); }
-        else if (op == "specdecode") { std::fprintf(out, "R skipped\n"); continue; }
+        else if (op == "specdecode" || op == "lwcheck") { std::fprintf(out, "R skipped\n"); continue; }
         else if (op == "mkframe") { vars[t[1]] = makeFrame(t[2], t[3]); continue; }
         else if (op == "cmut") {
             Frame& f = vars[t[1]];
